@@ -77,4 +77,12 @@ ApplyChain(x, ops) ==
   ELSE ApplyChain(Apply([ops[1] EXCEPT !.f = [index |-> x.index, columns |-> x.columns, cols |-> x.cols, name |-> x.name]]), Tail(ops))
 AsRes(f) == MkFrame(f.index, f.columns, f.cols, f.name)
 BatchItems(members, ops) == [m \in 1..Len(members) |-> <<members[m].label, ApplyChain(AsRes(members[m].f), ops)>>]
+(* Batch delegation law: for every method m the Batch forwards, (Batch of members).m(args) holds, label by label and in    *)
+(* member order, exactly what m(args) gives on that member (same values, labels, dtype, name, and the same error class).   *)
+(* direct / via: sequences of <<label, result>> recorded from the members themselves and through the Batch.               *)
+BatchMapVerdict(direct, via) ==
+  IF Len(direct) # Len(via) THEN "batch_map_item_count"
+  ELSE IF \E m \in 1..Len(direct) : direct[m][1] # via[m][1] THEN "batch_map_labels"
+  ELSE IF \E m \in 1..Len(direct) : direct[m][2] # via[m][2] THEN "batch_map_result_differs_from_member_result"
+  ELSE "ok"
 =============================================================================
